@@ -3,8 +3,8 @@
 import json, subprocess
 ALL = ["C%02d" % i for i in range(1, 21)]
 CHECKS = {
- "C01": ("exploration", "history recording at the client boundary + offline chain/dump/unjustified-failure oracle", "5 C01",
-   "Held on the concurrent histories actually produced (counts in evidence): per-key success chain, engine dump equality, no certainly-unjustified failure, final read. Sampling of schedules, not enumeration.",
+ "C01": ("exploration", "history recording at the client boundary + offline chain/dump/unjustified-failure oracle + porcupine linearizability check per key (memkv, Badger, TiKV mock)", "5 C01",
+   "Held on the concurrent histories actually produced (counts in evidence): per-key success chain, engine dump equality, no certainly-unjustified failure, no failed compare naming the compared revision, every key's sub-history linearizable as a conditional register (porcupine) on all three engines, final read. Sampling of schedules, not enumeration.",
    "call/return stamps come from one atomic counter; engine contents read through KvStorage.Iter; TiKV is the in-process mock"),
  "C02": ("exploration", "history recording + offline uniqueness / real-time-order / monotonicity checker, storage-boundary observer", "5 C02",
    "Held on the concurrent histories produced: revision uniqueness over responses and over batches observed at the storage boundary, real-time order of every (returned-before-called) pair, per-key monotonicity, header >= data.",
